@@ -54,3 +54,32 @@ package kv
 //@ trusted
 //@ modifies ghset(present, recv)
 //@ ensures err == nil ==> forall k string :: ghset(present, recv, k) <==> (k != key && old(ghset(present, recv, k)))
+
+// ---------------------------------------------------------------- comparison reads (C11)
+// Against the ordered-set view of Pebble (trusted, /verif/trusted/stdlib.spec): the
+// answer of each comparison read is the element a sorted reference of the live keys
+// gives.
+
+//@ func Pebble.getCeiling(p, key) (returnedKey, value, closer, err)
+//@ property C11
+//@ requires p.db != nil
+//@ ensures err == nil ==> dbHas(p.db, returnedKey) && !slashLt(returnedKey, key) && forall k string :: dbHas(p.db, k) && !slashLt(k, key) ==> !slashLt(k, returnedKey)
+//@ modifies nothing
+
+//@ func Pebble.getLower(p, key) (returnedKey, value, closer, err)
+//@ property C11
+//@ requires p.db != nil
+//@ ensures err == nil ==> dbHas(p.db, returnedKey) && slashLt(returnedKey, key) && forall k string :: dbHas(p.db, k) && slashLt(k, key) ==> !slashLt(returnedKey, k)
+//@ modifies nothing
+
+//@ func Pebble.getHigher(p, key) (returnedKey, value, closer, err)
+//@ property C11
+//@ requires p.db != nil
+//@ ensures err == nil ==> dbHas(p.db, returnedKey) && slashLt(key, returnedKey) && forall k string :: dbHas(p.db, k) && slashLt(key, k) ==> !slashLt(k, returnedKey)
+//@ modifies nothing
+
+//@ func Pebble.getFloor(p, key) (returnedKey, value, closer, err)
+//@ property C11
+//@ requires p.db != nil
+//@ ensures err == nil ==> dbHas(p.db, returnedKey) && !slashLt(key, returnedKey) && forall k string :: dbHas(p.db, k) && !slashLt(key, k) ==> !slashLt(returnedKey, k)
+//@ modifies nothing
